@@ -15,7 +15,6 @@ import (
 	"sort"
 	"strings"
 
-	"verif/csnet"
 	"verif/kv"
 	"verif/minichain"
 	"verif/txkit"
@@ -24,7 +23,6 @@ import (
 	cfg "github.com/lianxiangcloud/linkchain/config"
 	"github.com/lianxiangcloud/linkchain/libs/common"
 	lktypes "github.com/lianxiangcloud/linkchain/libs/cryptonote/types"
-	dbm "github.com/lianxiangcloud/linkchain/libs/db"
 	"github.com/lianxiangcloud/linkchain/libs/ser"
 	mempl "github.com/lianxiangcloud/linkchain/mempool"
 	"github.com/lianxiangcloud/linkchain/types"
@@ -40,6 +38,7 @@ type poolCfg struct {
 	MaxReap                    int // 0 = repository default
 	Remove                     bool
 	Cache                      string // "light" (the real cache type) | "none"
+	World                      string // "" = the standard world (A, B, C own 1000 coins), "bnd" = exact-balance senders (boundary.go)
 }
 
 func (p poolCfg) mempool() *cfg.MempoolConfig {
@@ -67,6 +66,9 @@ var allCfgs = []poolCfg{
 	// every quota of Reap is small: one confidential-typed transaction per list and block, two transactions per block
 	{Name: "s3f2q1-utxo1-reap2", Size: 3, Future: 2, AccountQueue: 1, UTXOSize: 1, MaxReap: 2, Remove: true, Cache: "light"},
 	{Name: "s4f2q2-utxo2", Size: 4, Future: 2, AccountQueue: 2, UTXOSize: 2, Remove: true, Cache: "light"},
+	// exact balance boundaries (boundary.go)
+	{Name: "bnd-default", Cache: "light", World: "bnd"},
+	{Name: "bnd-s2f2q2", Size: 2, Future: 2, AccountQueue: 2, Remove: true, Cache: "light", World: "bnd"},
 }
 
 // ---------------------------------------------------------------------------------------------------
@@ -97,6 +99,11 @@ func searchSpecs(thorough bool) []searchSpec {
 			{"s1f4q1", "s1f4q1", lettersBase, 5},
 			{"default", "default", lettersBase, 5},
 			{"quota-utxo1-reap2", "s3f2q1-utxo1-reap2", lettersQuota, 5},
+			{"boundary-p", "bnd-default", boundaryLetters("p"), 4},
+			{"boundary-t", "bnd-default", boundaryLetters("t"), 4},
+			{"boundary-k", "bnd-default", boundaryLetters("k"), 4},
+			{"boundary-u", "bnd-default", boundaryLetters("u"), 4},
+			{"boundary-v", "bnd-default", boundaryLetters("v"), 4},
 		}
 	}
 	return []searchSpec{
@@ -107,6 +114,12 @@ func searchSpecs(thorough bool) []searchSpec {
 		{"s3f2q1-utxo1", "s3f2q1-utxo1", nil, 6},
 		{"quota-utxo1-reap2", "s3f2q1-utxo1-reap2", lettersQuota, 6},
 		{"quota-utxo2", "s4f2q2-utxo2", lettersQuota, 6},
+		{"boundary-p", "bnd-default", boundaryLetters("p"), 6},
+		{"boundary-t", "bnd-default", boundaryLetters("t"), 6},
+		{"boundary-k", "bnd-default", boundaryLetters("k"), 6},
+		{"boundary-u", "bnd-default", boundaryLetters("u"), 6},
+		{"boundary-v", "bnd-default", boundaryLetters("v"), 6},
+		{"boundary-puv-small", "bnd-s2f2q2", append(append(boundaryLetters("p"), boundaryLetters("u")...), boundaryLetters("v")...), 5},
 	}
 }
 
@@ -124,8 +137,22 @@ func findSearch(thorough bool, name string) *searchSpec {
 func (u *universe) enabledOps(sp *searchSpec) []bool {
 	ops := u.ops()
 	out := make([]bool, len(ops))
+	bnd := false
+	for _, pc := range allCfgs {
+		if pc.Name == sp.Cfg && pc.World == "bnd" {
+			bnd = true
+		}
+	}
 	for i, o := range ops {
-		if o.kind != opAdd || sp.Letters == nil {
+		if o.kind == opCommitOther && o.x >= 0 {
+			out[i] = !bnd // blocks of the standard world's transactions
+			continue
+		}
+		if o.kind == opAdd && sp.Letters == nil {
+			out[i] = u.txs[o.x].Sender < bndFirst // "all letters" = all letters of the standard world
+			continue
+		}
+		if o.kind != opAdd {
 			out[i] = true
 			continue
 		}
@@ -151,15 +178,16 @@ type txSpec struct {
 	Hash   common.Hash
 	Sender int // index into accounts, -1: pure confidential (no account input)
 	Nonce  uint64
-	Cost   *big.Int // what the sender's committed balance must cover
-	KIs    []lktypes.Key
-	Class  string // valid | next | future | twin | stale | underfunded | conf | conf-conflict | oversized | ain
+	Cost   *big.Int // the debit according to the transaction's own fields (amount + gas limit x price; account input amount)
+	// what block execution really debits the sender: measured by executing the transaction alone in a block and diffing the
+	// balance (nil: not measured, e.g. a letter that can never execute)
+	CostExec *big.Int
+	KIs      []lktypes.Key
+	Class    string // valid | next | future | twin | stale | underfunded | conf | conf-conflict | oversized | ain
 }
 
-var accounts = []*txkit.Account{txkit.A, txkit.B, txkit.C}
-
 func acctIndex(a common.Address) int {
-	for i, x := range accounts {
+	for i, x := range allAccounts {
 		if x.Addr == a {
 			return i
 		}
@@ -168,6 +196,7 @@ func acctIndex(a common.Address) int {
 }
 
 type base struct {
+	world *world
 	cfg   poolCfg
 	rec   *kv.Recorder
 	chain *minichain.Chain
@@ -182,6 +211,7 @@ type universe struct {
 	pnames map[common.Hash]string // names of the transactions of block 1
 	prefix [][]byte               // transactions of block 1 (committed in every instance before the history starts)
 	bases  map[string]*base
+	worlds map[string]*world
 	walDir string
 	o1, o2 lktypes.Key // key images of the two confidential outputs W0 owns after block 1
 	// verdicts of the replica, keyed by (transactions of the blocks committed so far; transactions of the block): block
@@ -208,6 +238,15 @@ func facts(tx types.Tx) (sender int, nonce uint64, cost *big.Int, kis []lktypes.
 			return -1, 0, nil, nil, e
 		}
 		return acctIndexOrNew(from), t.Nonce(), t.Cost(), nil, nil
+	case *types.TokenTransaction:
+		from, e := t.From()
+		if e != nil {
+			return -1, 0, nil, nil, e
+		}
+		if common.IsLKC(t.TokenAddress()) {
+			return acctIndexOrNew(from), t.Nonce(), t.Cost(), nil, nil
+		}
+		return acctIndexOrNew(from), t.Nonce(), t.GasCost(), nil, nil // the coin side of a token transfer
 	case *types.UTXOTransaction:
 		cost = new(big.Int)
 		for _, in := range t.Inputs {
@@ -221,7 +260,11 @@ func facts(tx types.Tx) (sender int, nonce uint64, cost *big.Int, kis []lktypes.
 				}
 				sender = acctIndexOrNew(from)
 				nonce = x.Nonce
-				cost.Add(cost, x.Amount)
+				if common.IsLKC(t.TokenID) {
+					cost.Add(cost, x.Amount)
+				} else {
+					cost.Add(cost, t.Fee) // the coin side of a token transfer into the confidential layer
+				}
 			}
 		}
 		return sender, nonce, cost, kis, nil
@@ -253,9 +296,9 @@ func (u *universe) add(name, class string, tx types.Tx, alphabet bool) int {
 	return len(u.txs) - 1
 }
 
-// buildUniverse is a deterministic function of the tier: every process (parent and workers) builds the same bytes.
+// buildUniverse builds the same bytes in every process (parent and workers); base chains only for the requested configurations.
 func buildUniverse(cfgs []poolCfg) *universe {
-	u := &universe{byHash: map[common.Hash]int{}, pnames: map[common.Hash]string{}, bases: map[string]*base{}, validated: map[string]bool{}}
+	u := &universe{byHash: map[common.Hash]int{}, pnames: map[common.Hash]string{}, bases: map[string]*base{}, worlds: map[string]*world{}, validated: map[string]bool{}}
 	u.walDir = filepath.Join(scratchDir(), fmt.Sprintf("chains-%d", os.Getpid()))
 	if err := os.MkdirAll(u.walDir, 0700); err != nil {
 		vk.Fatalf("scratch dir: %v", err)
@@ -269,26 +312,25 @@ func buildUniverse(cfgs []poolCfg) *universe {
 	}
 	u.prefix = [][]byte{txkit.Bytes(ain0)}
 	u.pnames[decodeTx(u.prefix[0]).Hash()] = "ain0"
+	std := &world{name: "std", accts: []int{0, 1, 2}, alloc: txkit.Alloc(initialBalance), blocks: [][][]byte{u.prefix}, pnames: u.pnames}
+	u.worlds["std"] = std
+	needStd := false
 	for _, pc := range cfgs {
+		if pc.World != "" {
+			continue
+		}
+		needStd = true
 		rec := kv.NewRecorder()
-		c, err := minichain.New(minichain.Options{IsTrie: true, Alloc: txkit.Alloc(initialBalance), Mempool: pc.mempool(), MempoolCache: pc.Cache,
-			WalDir:  u.walDir,                      // trie mode writes nothing there; an explicit directory keeps minichain from creating its own
-			Fixture: csnet.NewFixture([]int64{10}), // one validator: the size of the validator set is irrelevant here, signing dominates a commit
-			NewDB:   func(n string) dbm.DB { return rec.DB(n) }})
-		if err != nil {
-			vk.Fatalf("base chain: %v", err)
-		}
-		var txs types.Txs
-		for _, raw := range u.prefix {
-			txs = append(txs, decodeTx(raw))
-		}
-		if _, err := c.Step(txs); err != nil {
-			vk.Fatalf("base chain: block 1: %v", err)
-		}
-		u.bases[pc.Name] = &base{cfg: pc, rec: rec, chain: c, n: rec.Len()}
+		c := u.newPlainChain(std, pc, rec)
+		u.bases[pc.Name] = &base{cfg: pc, rec: rec, chain: c, n: rec.Len(), world: std}
 		if len(led.Owned) == 0 {
 			led.Sync(c)
 		}
+	}
+	if len(led.Owned) == 0 { // the confidential letters need the outputs of block 1 whatever configurations are requested
+		c := u.newPlainChain(std, poolCfg{Name: "ledger", Cache: "none"}, nil)
+		led.Sync(c)
+		c.Close()
 	}
 	own := led.Spendable(txkit.W0)
 	if len(own) != 2 {
@@ -323,11 +365,38 @@ func buildUniverse(cfgs []poolCfg) *universe {
 	u.add("c1p", "twin", txkit.Transfer(C, 1, D.Addr, txkit.LKC(5)), true)
 	u.add("u3", "conf", mk(kit.Transfer(led, txkit.W0, own[1:2], 1, []txkit.Dest{txkit.ToWallet(txkit.W1, 1, txkit.LKC(40))}, 0)), true)
 	u.add("bU", "underfunded", txkit.Underfunded(B, 0, D.Addr, initialBalance), true)
+	u.buildBoundary(kit, cfgs)
 	u.nAdd = len(u.txs)
 	// CommitOther: blocks that do not come from the pool and conflict with pool content
 	b0x := u.add("b0x", "twin", txkit.Transfer(B, 0, D.Addr, txkit.LKC(1)), false)
 	u.others = []int{a1x, u2, b0x}
+	if needStd {
+		// what execution debits for the letters of the standard world: each sequence on a fresh chain with rich senders, one
+		// letter per block (a0, big, aLow can never execute: they keep the figure derived from their own fields)
+		richStd := &world{name: "std-rich", alloc: txkit.Alloc(rich()), blocks: std.blocks}
+		for _, seq := range [][]string{{"a1", "a2", "a3", "b0", "b1", "c0", "c1", "c2"}, {"a1x", "b0x", "c0", "c1p"}, {"aA", "bU"}} {
+			c := u.newPlainChain(richStd, poolCfg{Name: "measure", Cache: "none"}, nil)
+			u.measure(c, seq...)
+			c.Close()
+		}
+	}
 	return u
+}
+
+// costOf: what the sender's balance must cover for tx = what execution debits (measured), for letters that were never
+// measured the figure derived from the transaction's own fields.
+func (u *universe) costOf(tx types.Tx, formula *big.Int) *big.Int {
+	if i, ok := u.byHash[tx.Hash()]; ok && u.txs[i].CostExec != nil {
+		return u.txs[i].CostExec
+	}
+	return formula
+}
+
+func (t *txSpec) cost() *big.Int {
+	if t.CostExec != nil {
+		return t.CostExec
+	}
+	return t.Cost
 }
 
 func (u *universe) close() {
@@ -342,8 +411,10 @@ func (u *universe) name(h common.Hash) string {
 	if i, ok := u.byHash[h]; ok {
 		return u.txs[i].Name
 	}
-	if n, ok := u.pnames[h]; ok {
-		return n
+	for _, w := range u.worlds {
+		if n, ok := w.pnames[h]; ok {
+			return n
+		}
 	}
 	return "?" + h.Hex()[:10]
 }
@@ -486,8 +557,8 @@ func (u *universe) newInst(cfgName string) *inst {
 		vk.Fatalf("instance: %v", err)
 	}
 	in := &inst{u: u, pc: b.cfg, c: c, base: b, committed: map[common.Hash]bool{}}
-	for _, raw := range u.prefix {
-		in.committed[decodeTx(raw).Hash()] = true
+	for h := range b.world.pnames {
+		in.committed[h] = true
 	}
 	in.install()
 	return in
@@ -548,8 +619,8 @@ func (in *inst) executableNow(t *txSpec) bool {
 		return false
 	}
 	if t.Sender >= 0 {
-		a := accounts[t.Sender].Addr
-		if in.c.Nonce(a) != t.Nonce || in.c.Balance(a).Cmp(t.Cost) < 0 {
+		a := allAccounts[t.Sender].Addr
+		if in.c.Nonce(a) != t.Nonce || in.c.Balance(a).Cmp(t.cost()) < 0 {
 			return false
 		}
 	}
@@ -564,7 +635,8 @@ func (in *inst) executableNow(t *txSpec) bool {
 // pendingString: the speculative nonces and balances (what AddTx's state check reads and writes).
 func (in *inst) pendingString() string {
 	var b strings.Builder
-	for _, a := range accounts {
+	for _, i := range in.base.world.accts {
+		a := allAccounts[i]
 		fmt.Fprintf(&b, "%d/%v ", in.c.PendingNonce(a.Addr), in.c.PendingBalance(a.Addr))
 	}
 	return b.String()
@@ -668,7 +740,8 @@ type committedState struct {
 
 func (in *inst) committedState() committedState {
 	cs := committedState{nonce: map[int]uint64{}, bal: map[int]*big.Int{}, spent: map[lktypes.Key]bool{}}
-	for i, a := range accounts {
+	for _, i := range in.base.world.accts {
+		a := allAccounts[i]
 		cs.nonce[i] = in.c.Nonce(a.Addr)
 		cs.bal[i] = in.c.Balance(a.Addr)
 	}
@@ -714,6 +787,7 @@ func (in *inst) checkOffer(txs types.Txs, cs committedState, how string) (string
 		if err != nil {
 			return "offer:unknown-tx", desc() + ": " + err.Error()
 		}
+		cost = in.u.costOf(tx, cost)
 		for _, ki := range k {
 			if other, ok := kis[ki]; ok {
 				return "offer:shared-key-image", desc() + ": " + nm + " and " + other + " spend the same output"
@@ -775,6 +849,19 @@ func (in *inst) oracle() (string, string) {
 		offer := mem.Reap(n)
 		if n < pooled {
 			in.limits["reap-n-below-pool-content"] = true
+		}
+		if in.base.world.name == "bnd" {
+			per := map[int]int{}
+			for _, tx := range offer {
+				if s, _, _, _, err := facts(tx); err == nil && s >= bndFirst && s < len(allAccounts) {
+					per[s]++
+				}
+			}
+			for s, k := range per {
+				if k >= 2 {
+					in.limits["boundary-both-offered:"+allAccounts[s].Name] = true
+				}
+			}
 		}
 		if k, w := in.checkOffer(offer, cs, fmt.Sprintf("Reap(%d)", n)); k != "" {
 			return k, w
@@ -839,13 +926,14 @@ func (in *inst) oracle() (string, string) {
 		for _, tx := range v.Good {
 			if s, _, cost, _, err := facts(tx); err == nil && s >= 0 {
 				pendN[s]++
-				pendB[s].Sub(pendB[s], cost)
+				pendB[s].Sub(pendB[s], in.u.costOf(tx, cost))
 			}
 		}
 		for a, q := range v.Future {
 			s := acctIndexOrNew(a)
 			for _, tx := range q {
 				_, n, cost, _, _ := facts(tx)
+				cost = in.u.costOf(tx, cost)
 				if n == pendN[s] && cost.Cmp(pendB[s]) <= 0 {
 					return "not-promoted:executable-tx-left-queued", fmt.Sprintf("%s (nonce %d) is queued although the sender's executable run ends at nonce %d, the balance covers it and goodTxs has room (%d/%d)",
 						in.u.name(tx.Hash()), n, pendN[s], len(v.Good), v.Size)
@@ -898,9 +986,9 @@ func (in *inst) stateString() string {
 		sort.Strings(cs)
 		fmt.Fprintf(&b, " cache%v", cs)
 	}
-	for i, a := range accounts {
+	for _, i := range in.base.world.accts {
+		a := allAccounts[i]
 		fmt.Fprintf(&b, " %s:%d/%v|%d/%v", a.Name, in.c.Nonce(a.Addr), in.c.Balance(a.Addr), in.c.PendingNonce(a.Addr), in.c.PendingBalance(a.Addr))
-		_ = i
 	}
 	fmt.Fprintf(&b, " spent[o1=%v o2=%v]", in.c.KeyImageSpent(in.u.o1), in.c.KeyImageSpent(in.u.o2))
 	var cm []string
